@@ -177,6 +177,9 @@ class _CallPatchX86(_CallPatchImpl):
             )
         else:
             total_stack_size = arg_stack_size
+        # The shadow space is allocated below the arguments, so it also moves
+        # the stack pointer that has to be aligned at the call.
+        total_stack_size += self._cconv.shadow_space
 
         stack_padding = (
             align_address(total_stack_size, self._cconv.stack_alignment)
